@@ -18,21 +18,21 @@ def profs(spec, mult):
     return [{"profile": name, "count": max(1, int(n * mult)), "seed_offset": 1000 * i} for i, (name, n) in enumerate(spec)]
 
 PROFILES = {
-    "C01": [("pressure", 15), ("mix", 8), ("ttl", 5)],
+    "C01": [("pressure", 12), ("fill", 10), ("mix", 6), ("ttl", 4)],
     "C02": [("reads", 12), ("mix", 8), ("burst", 6)],
-    "C03": [("seq", 20), ("ttl", 8)],
+    "C03": [("seq", 24), ("ttl", 8)],
     "C04": [("burst", 12), ("mix", 8), ("ttl", 5)],
     "C05": [("burst", 15), ("mix", 8), ("pressure", 5)],
-    "C06": [("pressure", 25), ("mix", 5)],
+    "C06": [("pressure", 18), ("fill", 12), ("mix", 4)],
     "C07": [("ttl", 10), ("mix", 8), ("burst", 8)],
     "C08": [("ttl", 12), ("mix", 8), ("seq", 6)],
     "C09": [("ttl", 15), ("seq", 8), ("reads", 5)],
     "C10": [("ttl", 20), ("seq", 8)],
     "C11": [("burst", 20), ("mix", 8)],
-    "C13": [("shutdown", 25), ("mix", 5)],
+    "C13": [("shutdown", 15), ("shutrace", 150), ("mix", 4)],
     "C15": [("reads", 25), ("mix", 5)],
     "C16": [("stats", 15), ("allhit", 6), ("mix", 6)],
-    "C17": [("mix", 10), ("pressure", 6), ("ttl", 6)],
+    "C17": [("boundary", 20), ("mix", 6), ("pressure", 4), ("ttl", 4)],
 }
 
 PLANS = {}
